@@ -8,6 +8,7 @@ import lib, suite_traces, composition, regtree
 PROPERTIES = ["C11", "C12"]
 
 C11_FIELDS = {'STB', 'queue', 'out', 'SRE', 'ESE', 'OPERE', 'QUESE', 'OPERC', 'QUESC'}
+C10_FIELDS = {'queue', 'out'}
 C12_FIELDS = {'ESR', 'OPER', 'QUES', 'srq-missing', 'srq-without-mss', 'srq-while-mss-clear', 'srq-not-current-status-byte'}
 
 def kind_of(rec, diff):
@@ -42,7 +43,7 @@ def validate(rep, pid, path, label, nontrivial=True):
         r = lib.tlc('TVStatus', 'TVStatus.cfg', workers=4, env={'TRACE': p}, xmx='3g', timeout=900)
         os.unlink(p)
         return i, r
-    fields = C11_FIELDS if pid == 'C11' else C12_FIELDS
+    fields = C11_FIELDS if pid == 'C11' else C10_FIELDS if pid == 'C10' else C12_FIELDS
     unj = 0
     mism = 0
     with concurrent.futures.ThreadPoolExecutor(max_workers=4) as ex:
